@@ -46,6 +46,16 @@ Ltac ok_inv :=
   | H : inr _ = inl _ |- _ => discriminate H
   end.
 
+(* [H : <loop body> = Ok (inr _)] where every path of the body that is still possible ends in
+   [Ok (inl _)] or an error: close the goal by walking through the body *)
+Ltac bind_discr H :=
+  repeat first
+    [ discriminate H
+    | inv_bind H
+    | match type of H with
+      | context [match ?x with _ => _ end] => destruct x
+      end ].
+
 (* ------------------------------------------------------------------ *)
 (** * loops *)
 
